@@ -464,31 +464,31 @@ static struct Register {
 #endif
 			std::string sfx = fmt("/mem%02X", patterns[pi]);
 #if SEL(0)
-			addUnit<ACallbackList<ST>, false>(VERIF_PREFIX "/CallbackList/single" + sfx, mt, c, 5, 7, 1, 1);
-			addUnit<ACallbackList<MT>, false>(VERIF_PREFIX "/CallbackList/multi" + sfx, mt, c, 5, 7, 1, 1);
+			addUnit<ACallbackList<ST>, false>(VERIF_PREFIX "/CallbackList/single" + sfx, mt, c, 5, 8, 1, 1);
+			addUnit<ACallbackList<MT>, false>(VERIF_PREFIX "/CallbackList/multi" + sfx, mt, c, 5, 8, 1, 1);
 #endif
 #if SEL(1)
-			addUnit<ADispatcher<ST>, false>(VERIF_PREFIX "/EventDispatcher/single" + sfx, mt, c, 5, 7, 1, 1);
-			addUnit<ADispatcherF<MT>, false>(VERIF_PREFIX "/EventDispatcher+filter/multi" + sfx, mt, c, 5, 7, 1, 1);
+			addUnit<ADispatcher<ST>, false>(VERIF_PREFIX "/EventDispatcher/single" + sfx, mt, c, 5, 8, 1, 1);
+			addUnit<ADispatcherF<MT>, false>(VERIF_PREFIX "/EventDispatcher+filter/multi" + sfx, mt, c, 5, 8, 1, 1);
 #endif
 #if SEL(2)
-			addUnit<AQueue<MT>, false>(VERIF_PREFIX "/EventQueue/multi" + sfx, mt, c, 5, 7, 1, 1);
+			addUnit<AQueue<MT>, false>(VERIF_PREFIX "/EventQueue/multi" + sfx, mt, c, 5, 8, 1, 1);
 #endif
 #if SEL(3)
-			addUnit<AQueue<VThreading>, false>(VERIF_PREFIX "/EventQueue/vthreading" + sfx, mt, c, 5, 7, 1, 1);
-			addUnit<AQueue<MT, PF<MT> >, false>(VERIF_PREFIX "/EventQueue+filter/multi" + sfx, 1, c, 5, 7, 1, 1);
+			addUnit<AQueue<VThreading>, false>(VERIF_PREFIX "/EventQueue/vthreading" + sfx, mt, c, 5, 8, 1, 1);
+			addUnit<AQueue<MT, PF<MT> >, false>(VERIF_PREFIX "/EventQueue+filter/multi" + sfx, 1, c, 5, 8, 1, 1);
 #endif
 #if SEL(4)
-			addUnit<AHeterList<MT>, true>(VERIF_PREFIX "/HeterCallbackList/multi" + sfx, mt, c, 5, 7, 1, 1);
-			addUnit<AHeterDispatcher<ST>, true>(VERIF_PREFIX "/HeterEventDispatcher/single" + sfx, mt, c, 5, 7, 1, 1);
+			addUnit<AHeterList<MT>, true>(VERIF_PREFIX "/HeterCallbackList/multi" + sfx, mt, c, 5, 8, 1, 1);
+			addUnit<AHeterDispatcher<ST>, true>(VERIF_PREFIX "/HeterEventDispatcher/single" + sfx, mt, c, 5, 8, 1, 1);
 #endif
 #if SEL(5)
-			addUnit<AHeterQueue<MT>, true>(VERIF_PREFIX "/HeterEventQueue/multi" + sfx, mt, c, 5, 7, 1, 1);
+			addUnit<AHeterQueue<MT>, true>(VERIF_PREFIX "/HeterEventQueue/multi" + sfx, mt, c, 5, 8, 1, 1);
 #endif
 		}
 #if SEL(0)
 		// generation counters on different sides of the wrap (C19's extreme, copies/moves/swaps between such lists)
-		for(int p = 0; p <= 2; ++p) { Cfg c; c.preset = p; c.nested = true; addUnit<ACallbackList<ST>, false>(fmt(VERIF_PREFIX "/CallbackList/single/near-wrap%d", p), p == 1 ? 0 : 1, c, 5, 7, 1, 1); }
+		for(int p = 0; p <= 2; ++p) { Cfg c; c.preset = p; c.nested = true; addUnit<ACallbackList<ST>, false>(fmt(VERIF_PREFIX "/CallbackList/single/near-wrap%d", p), p == 1 ? 0 : 1, c, 5, 8, 1, 1); }
 #endif
 	}
 } reg;
